@@ -273,13 +273,30 @@ def pairing_replace(ctx, ef):
     on, off = g.edge_filter_assuming(CHECKED), g.edge_filter_assuming(UNCHECKED)
     rem = dom.nodes_calling(g, lambda c: unparse(c.func) == 'self._unordered_children.remove' and len(c.args) == 1)
     ins = dom.nodes_calling(g, lambda c: unparse(c.func) == 'self._unordered_children.insert' and len(c.args) == 2 and unparse(c.args[1]) == new)
-    if not res.check(len(rem) == 1 and len(ins) == 1, 'R-PAIR.replace', f.fq, "one removal of the old and one insertion of the new child in the insertion list",
+    # the same swap written as an item assignment: self._unordered_children[i] = new
+    setitems = [n for n in g.stmt_nodes() if n.kind == 'stmt' and isinstance(n.ast, ast.Assign) and len(n.ast.targets) == 1 and isinstance(n.ast.targets[0], ast.Subscript)
+                and unparse(n.ast.targets[0].value) == 'self._unordered_children' and unparse(n.ast.value) == new and not isinstance(n.ast.targets[0].slice, ast.Slice)]
+    others = [n for n in dom.list_mutation_nodes(g, 'self._unordered_children') if n not in rem + ins + setitems]
+    form_a = len(rem) == 1 and len(ins) == 1 and not setitems
+    form_b = len(setitems) == 1 and not rem and not ins
+    if not res.check((form_a or form_b) and not others, 'R-PAIR.replace', f.fq, "one removal of the old and one insertion of the new child in the insertion list "
+                     "(or one item assignment at the old child's index), and no other edit of that list", fail_detail='; '.join(n.text() for n in others[:3]),
                      key='R-PAIR.replace|list-ops'):
         return
-    rc = [x for e in rem[0].exprs() for x in walk_local(e) if isinstance(x, ast.Call) and unparse(x.func) == 'self._unordered_children.remove'][0]
-    old_var = unparse(rc.args[0])
-    ic = [x for e in ins[0].exprs() for x in walk_local(e) if isinstance(x, ast.Call) and unparse(x.func) == 'self._unordered_children.insert'][0]
-    idx_var = unparse(ic.args[0])
+    if form_a:
+        rc = [x for e in rem[0].exprs() for x in walk_local(e) if isinstance(x, ast.Call) and unparse(x.func) == 'self._unordered_children.remove'][0]
+        old_var = unparse(rc.args[0])
+        ic = [x for e in ins[0].exprs() for x in walk_local(e) if isinstance(x, ast.Call) and unparse(x.func) == 'self._unordered_children.insert'][0]
+        idx_var = unparse(ic.args[0])
+    else:
+        idx_var = unparse(setitems[0].ast.targets[0].slice)
+        # the removed child is the one read from that index before the store
+        cand = [d.ast.targets[0].id for d in g.stmt_nodes() if d.kind == 'stmt' and isinstance(d.ast, ast.Assign) and isinstance(d.ast.targets[0], ast.Name)
+                and unparse(d.ast.value) == f"self._unordered_children[{idx_var}]" and g.dominates(d, setitems[0])]
+        if not res.check(len(cand) == 1, 'R-PAIR.replace', f.fq, "the child at that index is read (the removed child) before the item assignment", key='R-PAIR.replace|list-ops'):
+            return
+        old_var = cand[0]
+        rem = ins = setitems
     # old_var = self._unordered_children[idx_var]; idx_var = self._unordered_children.index(<selected old>)
     defs_old = [unparse(d.ast.value) for d in dom.assignments_to(g, old_var) if isinstance(d.ast, ast.Assign)]
     defs_idx = [unparse(d.ast.value) for d in dom.assignments_to(g, idx_var) if isinstance(d.ast, ast.Assign)]
